@@ -2,11 +2,34 @@ import P2sh.Model.Scanner
 /-!
 # C01 — the scanner is total (`scan_total`)
 
-Theorems about `P2sh.Model.Scanner` (the model of `src/scanner/mod.rs` in which every
-`self.input[i]` / `self.input[a..b]` is a checked access yielding `panic` and every loop takes fuel).
+Theorems about `P2sh.Model.Scanner`, the model of `src/scanner/mod.rs` in which every
+`self.input[i]` / `self.input[a..b]` is a checked access yielding `panic` and every loop takes fuel.
+All statements are for every input string (embedded NUL characters included: the scanner then
+reports `Eof` at the first NUL, exactly as the code does).
 
-Invariant (`Inv`): `readPosition = position + 1` and `ch = input.getD position '\0'`
-(so `ch ≠ '\0'` implies `position < input.size`; the cursor may run past the end, where `ch = '\0'`).
+Invariant `Inv s`:  `readPosition = position + 1`  and  `ch = input.getD position '\0'`.
+Hence `ch ≠ '\0'` implies `position < input.size`; the cursor may run past the end (after an
+unterminated literal and after `Eof` it does), where `ch = '\0'`.  `read_char` establishes `Inv`
+from any state.  Inside a reader function the relation `Reach s0 s` additionally records
+`s0.position ≤ s.position ≤ input.size` (each `read_char` there is guarded by `ch ≠ '\0'`), which
+is what makes every slice `input[s0.position .. s.position]` valid.
+
+Property theorems (the obligations):
+* `nextToken_no_panic`  — `Inv s → nextToken s ≠ panic`, and the returned state satisfies `Inv`
+                          over the same input (`nextToken_no_panic_reachable`: for every state
+                          reachable from `init src`);
+* `nextToken_progress`  — every call strictly advances the cursor, and a token other than `Eof`
+                          is produced only from a position inside the input;
+* `scan_total`          — `∀ src, ∃ ts, scan src = .ok ts` (no panic; the fuel `src.length + 2` suffices);
+* `scan_ends_with_eof`  — the last token is `Eof`, no earlier one is, at most `src.length` tokens precede it;
+* `scan_lines_monotone` — token line numbers are non-decreasing, start at 1, and are at most
+                          1 + the number of `'\n'` in the source;
+* `skip_phase_exits`, `readWhile_exits`, `readUntilQuote_exits`, `readStringBody_exits`,
+  `skipLine_exits`, `skipWhitespace_exits`, `skipComments_exits` — the fuel of every inner loop
+  suffices: each loop returns at the exit condition of the Rust loop it models.
+
+No fact about the generated tables (`Gen.ParseRules.keywords/singles/twins`) is used: whatever the
+tables contain, the single/twin arms read at most one further character, and the NUL test precedes them.
 -/
 namespace P2sh.Props.C01
 open P2sh.Scanner
@@ -423,6 +446,34 @@ theorem readNumber_good (s0 : S) (h : Inv s0)
   rw [heq2'] at key
   exact numTail_good key (s0.input.size + 1) isHex isOct isBin isFloat
 
+/-! ## line numbers: newlines before the cursor -/
+
+/-- number of `'\n'` characters before the cursor -/
+def nlBefore (s : S) : Nat := (s.input.toList.take s.position).count '\n'
+
+theorem nlBefore_mono {s s' : S} (hin : s'.input = s.input) (hp : s.position ≤ s'.position) :
+    nlBefore s ≤ nlBefore s' := by
+  unfold nlBefore
+  rw [hin]
+  exact List.Sublist.count_le _ (List.take_sublist_take_left hp)
+
+theorem nlBefore_le_total (s : S) : nlBefore s ≤ s.input.toList.count '\n' :=
+  List.Sublist.count_le _ (List.take_sublist _ _)
+
+theorem nlBefore_newline {s s' : S} (h : Inv s) (hc : s.ch = '\n') (hin : s'.input = s.input)
+    (hp : s'.position = s.position + 1) : nlBefore s' = nlBefore s + 1 := by
+  unfold nlBefore
+  rw [hin, hp, List.take_add_one, List.count_append]
+  have h1 := h.ch
+  rw [hc, Array.getD_eq_getD_getElem?, ← Array.getElem?_toList] at h1
+  cases hx : s.input.toList[s.position]? with
+  | none => rw [hx] at h1; exact absurd h1 (by decide)
+  | some c =>
+    rw [hx] at h1
+    simp only [Option.getD_some] at h1
+    subst h1
+    simp
+
 /-! ## whitespace and comments -/
 
 /-- `s` was reached from `s0` by skipping: cursor and line number only grow -/
@@ -431,18 +482,27 @@ structure Skip (s0 s : S) : Prop where
   input : s.input = s0.input
   pos : s0.position ≤ s.position
   line : s0.line ≤ s.line
+  /-- the line number grows by at most the number of newlines passed -/
+  nl : s.line + nlBefore s0 ≤ s0.line + nlBefore s
 
-theorem Skip.refl {s : S} (h : Inv s) : Skip s s := ⟨h, rfl, Nat.le_refl _, Nat.le_refl _⟩
+theorem Skip.refl {s : S} (h : Inv s) : Skip s s :=
+  ⟨h, rfl, Nat.le_refl _, Nat.le_refl _, Nat.le_refl _⟩
 
 theorem Skip.trans {a b c : S} (h1 : Skip a b) (h2 : Skip b c) : Skip a c :=
-  ⟨h2.inv, h2.input.trans h1.input, Nat.le_trans h1.pos h2.pos, Nat.le_trans h1.line h2.line⟩
+  ⟨h2.inv, h2.input.trans h1.input, Nat.le_trans h1.pos h2.pos, Nat.le_trans h1.line h2.line,
+   by have := h1.nl; have := h2.nl; omega⟩
 
 theorem Skip.readChar {s : S} (h : Inv s) : Skip s s.readChar :=
-  ⟨readChar_inv s, rfl, by rw [h.readChar_pos]; exact Nat.le_succ _, Nat.le_refl _⟩
+  have hp : s.position ≤ s.readChar.position := by rw [h.readChar_pos]; exact Nat.le_succ _
+  ⟨readChar_inv s, rfl, hp, Nat.le_refl _,
+   by have := nlBefore_mono (s := s) (s' := s.readChar) rfl hp; simp only [readChar_line]; omega⟩
 
-theorem Skip.newline {s : S} (h : Inv s) : Skip s { s.readChar with line := s.line + 1 } :=
+theorem Skip.newline {s : S} (h : Inv s) (hc : s.ch = '\n') :
+    Skip s { s.readChar with line := s.line + 1 } :=
   ⟨⟨rfl, readChar_ch s⟩, rfl, by show s.position ≤ s.readChar.position; rw [h.readChar_pos]; exact Nat.le_succ _,
-   Nat.le_succ _⟩
+   Nat.le_succ _,
+   by have := nlBefore_newline (s' := { s.readChar with line := s.line + 1 }) h hc rfl h.readChar_pos
+      show s.line + 1 + nlBefore s ≤ _; omega⟩
 
 theorem skipWhitespace_skip : ∀ (fuel : Nat) (s : S), Inv s → Skip s (skipWhitespace fuel s)
   | 0, s, h => Skip.refl h
@@ -451,7 +511,9 @@ theorem skipWhitespace_skip : ∀ (fuel : Nat) (s : S), Inv s → Skip s (skipWh
     split
     · exact (Skip.readChar h).trans (skipWhitespace_skip fuel _ (readChar_inv s))
     · split
-      · exact (Skip.newline h).trans (skipWhitespace_skip fuel _ (Skip.newline h).inv)
+      · next hc =>
+        have hn := Skip.newline h (eq_of_beq hc)
+        exact hn.trans (skipWhitespace_skip fuel _ hn.inv)
       · exact Skip.refl h
 
 theorem skipLine_skip : ∀ (fuel : Nat) (s : S), Inv s → Skip s (skipLine fuel s)
@@ -484,6 +546,8 @@ structure Next (s : S) (t : Token) (s' : S) : Prop where
   pos : s.position < s'.position
   line_lo : s.line ≤ t.line
   line_hi : t.line ≤ s'.line
+  /-- the line number grows by at most the number of newlines passed -/
+  nl : s'.line + nlBefore s ≤ s.line + nlBefore s'
   live : t.ttype ≠ "Eof" → s.position < s.input.size
 
 /-- `s'` was reached from `s2` by at least one `read_char` -/
@@ -506,6 +570,7 @@ theorem Next.mk' {s s2 s' : S} {t : Token} (k : Skip s s2) (a : Adv s2 s') (ht :
     (live : t.ttype ≠ "Eof" → s2.position < s2.input.size) : Next s t s' :=
   ⟨a.inv, a.input.trans k.input, Nat.lt_of_le_of_lt k.pos a.pos, by rw [ht]; exact k.line,
    by rw [ht, a.line]; exact Nat.le_refl _,
+   by have := k.nl; have := nlBefore_mono a.input (Nat.le_of_lt a.pos); rw [a.line]; omega,
    fun hne => by have := live hne; rw [k.input] at this; exact Nat.lt_of_le_of_lt k.pos this⟩
 
 theorem singleOrTwin_cases {s : S} {t : Token} {s' : S} (h : singleOrTwin s = some (t, s')) :
@@ -694,6 +759,213 @@ theorem scan_ends_with_eof (src : String) :
   rw [input_size, init_position] at hlen
   exact ⟨pre, t, by simpa [scan] using e, ht, hpre, by omega⟩
 
+/-! ## line numbers of the tokens -/
+
+/-- line numbers are non-decreasing along the list and lie between `lo` and `hi` -/
+def LinesOK (lo hi : Nat) (l : List Token) : Prop :=
+  l.Pairwise (fun a b => a.line ≤ b.line) ∧ ∀ x ∈ l, lo ≤ x.line ∧ x.line ≤ hi
+
+theorem run_zero (s : S) (acc : List Token) : run 0 s acc = .fuel := rfl
+
+theorem run_lines (fuel : Nat) : ∀ (s : S) (acc ts : List Token), Inv s → s.line ≤ 1 + nlBefore s →
+    run fuel s acc = .ok ts →
+    ∃ out, ts = acc ++ out ∧ LinesOK s.line (1 + s.input.toList.count '\n') out := by
+  induction fuel with
+  | zero => intro s acc ts _ _ e; rw [run_zero] at e; exact Run.noConfusion e
+  | succ fuel ih =>
+    intro s acc ts h hl e
+    obtain ⟨t, s', et, nx⟩ := nextToken_spec s h
+    rw [run_succ_tok fuel s acc t s' et] at e
+    have h1 := nx.line_lo
+    have h2 := nx.line_hi
+    have h3 := nx.nl
+    have h4 := nlBefore_le_total s'
+    rw [nx.input] at h4
+    split at e
+    · injection e with e
+      refine ⟨[t], by rw [← e]; simp, List.pairwise_singleton _ _, ?_⟩
+      intro x hx
+      rw [List.mem_singleton.mp hx]
+      exact ⟨h1, by omega⟩
+    · obtain ⟨out, e', hp, hb⟩ := ih s' (acc ++ [t]) ts nx.inv (by omega) e
+      rw [nx.input] at hb
+      refine ⟨t :: out, by rw [e']; simp, List.pairwise_cons.mpr ⟨?_, hp⟩, ?_⟩
+      · intro x hx
+        have := (hb x hx).1
+        omega
+      · intro x hx
+        rcases List.mem_cons.mp hx with rfl | hx
+        · exact ⟨h1, by omega⟩
+        · have := hb x hx
+          exact ⟨by omega, this.2⟩
+
+/-- **scan_lines_monotone**: token line numbers never decrease, start at 1 and do not exceed
+one plus the number of newline characters in the source -/
+theorem scan_lines_monotone (src : String) (ts : List Token) (e : scan src = .ok ts) :
+    ts.Pairwise (fun a b => a.line ≤ b.line) ∧
+      ∀ x ∈ ts, 1 ≤ x.line ∧ x.line ≤ 1 + src.toList.count '\n' := by
+  obtain ⟨out, e', hp, hb⟩ := run_lines (src.length + 2) (init src) [] ts (init_inv src)
+    (by rw [init_line]; exact Nat.le_add_right _ _) e
+  rw [List.nil_append] at e'
+  subst e'
+  exact ⟨hp, by simpa using hb⟩
+
+/-! ## the fuel of the inner loops suffices
+
+Each inner loop of the model stops silently when its fuel runs out.  The lemmas below show that with
+the fuel passed at every call site (`input.size + 1`, resp. `input.size + 2`) this never happens:
+the loop returns in a state satisfying the exit condition of the `while`/`loop` it models, so the
+model loop and the unbounded loop of the implementation compute the same state. -/
+
+theorem readWhile_exits (p : Char → Bool) (hp : p nul = false) :
+    ∀ (fuel : Nat) (s : S), Inv s → s.input.size - s.position < fuel →
+      p (readWhile p fuel s).ch = false
+  | 0, _, _, hf => absurd hf (Nat.not_lt_zero _)
+  | fuel+1, s, h, hf => by
+    simp only [readWhile]
+    split
+    · next hc =>
+      have hne : s.ch ≠ nul := by intro e; rw [e, hp] at hc; exact Bool.noConfusion hc
+      have hlt := h.lt_of_ne hne
+      exact readWhile_exits p hp fuel s.readChar (readChar_inv s)
+        (by rw [readChar_input, h.readChar_pos]; omega)
+    · next hc => simpa using hc
+
+theorem readUntilQuote_exits :
+    ∀ (fuel : Nat) (s : S), Inv s → s.input.size - s.position < fuel →
+      (readUntilQuote fuel s).ch = '\'' ∨ (readUntilQuote fuel s).ch = nul
+  | 0, _, _, hf => absurd hf (Nat.not_lt_zero _)
+  | fuel+1, s, h, hf => by
+    simp only [readUntilQuote]
+    split
+    · next hc =>
+      have hne : s.ch ≠ nul := by intro e; simp [e] at hc
+      have hlt := h.lt_of_ne hne
+      exact readUntilQuote_exits fuel s.readChar (readChar_inv s)
+        (by rw [readChar_input, h.readChar_pos]; omega)
+    · next hc =>
+      simp only [Bool.and_eq_true, bne_iff_ne, ne_eq, not_and, Decidable.not_not] at hc
+      by_cases h1 : s.ch = '\''
+      · exact Or.inl h1
+      · exact Or.inr (hc h1)
+
+theorem readStringBody_exits :
+    ∀ (fuel : Nat) (s : S), Inv s → s.position < s.input.size → s.input.size - s.position ≤ fuel →
+      (readStringBody fuel s).ch = '"' ∨ (readStringBody fuel s).ch = nul
+  | 0, _, _, hlt, hf => by omega
+  | fuel+1, s, h, hlt, hf => by
+    rw [readStringBody]
+    split
+    · next hc => simpa using hc
+    · next hc =>
+      have hne : s.readChar.ch ≠ nul := by intro e; simp [e] at hc
+      have hlt' := (readChar_inv s).lt_of_ne hne
+      rw [readChar_input, h.readChar_pos] at hlt'
+      exact readStringBody_exits fuel s.readChar (readChar_inv s)
+        (by rw [readChar_input, h.readChar_pos]; exact hlt')
+        (by rw [readChar_input, h.readChar_pos]; omega)
+
+theorem skipLine_exits :
+    ∀ (fuel : Nat) (s : S), Inv s → s.position < s.input.size → s.input.size - s.position ≤ fuel →
+      (skipLine fuel s).ch = '\n' ∨ (skipLine fuel s).ch = nul
+  | 0, _, _, hlt, hf => by omega
+  | fuel+1, s, h, hlt, hf => by
+    rw [skipLine]
+    split
+    · next hc => simpa using hc
+    · next hc =>
+      have hne : s.readChar.ch ≠ nul := by intro e; simp [e] at hc
+      have hlt' := (readChar_inv s).lt_of_ne hne
+      rw [readChar_input, h.readChar_pos] at hlt'
+      exact skipLine_exits fuel s.readChar (readChar_inv s)
+        (by rw [readChar_input, h.readChar_pos]; exact hlt')
+        (by rw [readChar_input, h.readChar_pos]; omega)
+
+/-- `skip_line` consumes at least one character -/
+theorem skipLine_pos (fuel : Nat) (s : S) (h : Inv s) : s.position + 1 ≤ (skipLine (fuel+1) s).position := by
+  rw [skipLine]
+  split
+  · rw [h.readChar_pos]; exact Nat.le_refl _
+  · have := (skipLine_skip fuel s.readChar (readChar_inv s)).pos
+    rw [h.readChar_pos] at this
+    exact this
+
+def isBlank (c : Char) : Bool := c == ' ' || c == '\t' || c == '\r' || c == '\n'
+
+theorem skipWhitespace_exits :
+    ∀ (fuel : Nat) (s : S), Inv s → s.input.size - s.position < fuel →
+      isBlank (skipWhitespace fuel s).ch = false
+  | 0, _, _, hf => absurd hf (Nat.not_lt_zero _)
+  | fuel+1, s, h, hf => by
+    simp only [skipWhitespace]
+    split
+    · next hc =>
+      have hne : s.ch ≠ nul := by intro e; simp [e] at hc; revert hc; decide
+      have hlt := h.lt_of_ne hne
+      exact skipWhitespace_exits fuel s.readChar (readChar_inv s)
+        (by rw [readChar_input, h.readChar_pos]; omega)
+    · next hc =>
+      split
+      · next hc2 =>
+        have hne : s.ch ≠ nul := by intro e; simp [e] at hc2; revert hc2; decide
+        have hlt := h.lt_of_ne hne
+        have hn := Skip.newline h (eq_of_beq hc2)
+        exact skipWhitespace_exits fuel _ hn.inv
+          (by rw [hn.input]; show s.input.size - s.readChar.position < fuel; rw [h.readChar_pos]; omega)
+      · next hc2 =>
+        simp only [isBlank]
+        simp only [Bool.or_eq_true, not_or, Bool.not_eq_true] at hc hc2 ⊢
+        simp [hc.1.1, hc.1.2, hc.2, hc2]
+
+/-- the condition of the `loop` in `skip_comments` -/
+def atComment (s : S) : Bool := s.ch == '#' || (s.ch == '/' && s.peekChar == '/')
+
+theorem skipComments_exits :
+    ∀ (fuel : Nat) (s : S), Inv s → s.input.size - s.position < fuel →
+      atComment (skipComments fuel s) = false
+  | 0, _, _, hf => absurd hf (Nat.not_lt_zero _)
+  | fuel+1, s, h, hf => by
+    rw [skipComments]
+    split
+    · next hc =>
+      have hne : s.ch ≠ nul := by
+        intro e; simp [e] at hc
+        rcases hc with h | ⟨h, _⟩ <;> exact absurd h (by decide)
+      have hlt := h.lt_of_ne hne
+      have k1 := skipLine_skip (s.input.size + 1) s h
+      have p1 := skipLine_pos s.input.size s h
+      generalize skipLine (s.input.size + 1) s = s1 at k1 p1
+      show atComment (skipComments fuel (skipWhitespace (s1.input.size + 2) s1)) = false
+      have k2 := skipWhitespace_skip (s1.input.size + 2) s1 k1.inv
+      generalize skipWhitespace (s1.input.size + 2) s1 = s2 at k2
+      have := k2.pos
+      exact skipComments_exits fuel s2 k2.inv (by rw [k2.input, k1.input]; omega)
+    · next hc => simpa [atComment] using hc
+
+theorem skipComments_blank :
+    ∀ (fuel : Nat) (s : S), Inv s → isBlank s.ch = false → isBlank (skipComments fuel s).ch = false
+  | 0, _, _, hb => hb
+  | fuel+1, s, h, hb => by
+    rw [skipComments]
+    split
+    · have k1 := skipLine_skip (s.input.size + 1) s h
+      generalize skipLine (s.input.size + 1) s = s1 at k1
+      show isBlank (skipComments fuel (skipWhitespace (s1.input.size + 2) s1)).ch = false
+      have e2 := skipWhitespace_exits (s1.input.size + 2) s1 k1.inv (by omega)
+      have k2 := skipWhitespace_skip (s1.input.size + 2) s1 k1.inv
+      exact skipComments_blank fuel _ k2.inv e2
+    · exact hb
+
+/-- after the two skipping phases of `next_token` (with the fuel `input.size + 2` of the model) the
+cursor is neither on a blank nor at the start of a comment — both loops ran to completion -/
+theorem skip_phase_exits (s : S) (h : Inv s) :
+    atComment (skipComments (s.input.size + 2) (skipWhitespace (s.input.size + 2) s)) = false ∧
+    isBlank (skipComments (s.input.size + 2) (skipWhitespace (s.input.size + 2) s)).ch = false := by
+  have k1 := skipWhitespace_skip (s.input.size + 2) s h
+  have e1 := skipWhitespace_exits (s.input.size + 2) s h (by omega)
+  generalize skipWhitespace (s.input.size + 2) s = s1 at k1 e1
+  exact ⟨skipComments_exits _ s1 k1.inv (by rw [k1.input]; omega), skipComments_blank _ s1 k1.inv e1⟩
+
 /-- the token list of a `Run`, for the examples -/
 def tokens : Run → Option (List Token)
   | .ok ts => some ts
@@ -708,5 +980,9 @@ example : tokens (scan "1.5e+3 0b1 .5 1..=2 a.b 'xy") = some
     [⟨"Float", "1.5e+3", 1⟩, ⟨"Binary", "0b1", 1⟩, ⟨"Float", ".5", 1⟩, ⟨"Decimal", "1", 1⟩,
      ⟨"RangeInc", "..=", 1⟩, ⟨"Decimal", "2", 1⟩, ⟨"Identifier", "a", 1⟩, ⟨"Dot", ".", 1⟩,
      ⟨"Identifier", "b", 1⟩, ⟨"Illegal", "'xy", 1⟩, ⟨"Eof", "", 1⟩] := by decide
+
+-- line numbers: newlines inside a string literal are not counted, the one ending a comment is
+example : tokens (scan "a\n\"x\ny\" // c\n\n  b") = some
+    [⟨"Identifier", "a", 1⟩, ⟨"Str", "x\ny", 2⟩, ⟨"Identifier", "b", 4⟩, ⟨"Eof", "", 4⟩] := by decide
 
 end P2sh.Props.C01
